@@ -578,7 +578,7 @@ func main() {
 		} else if sc.maxBound < 0 {
 			b = 0
 		}
-		st := vsched.Explore(vsched.ExploreConfig{Opts: vsched.Options{MaxSteps: 20000}, Bound: b, Deadline: deadline, StateCaching: os.Getenv("VERIF_NO_CACHE") == "", MaxExecutions: run.Pick(400000, 5000000)}, sc.build)
+		st := vsched.Explore(vsched.ExploreConfig{Opts: vsched.Options{MaxSteps: 20000}, Bound: b, Deadline: deadline, GuaranteedBound: 1, StateCaching: os.Getenv("VERIF_NO_CACHE") == "", MaxExecutions: run.Pick(400000, 5000000)}, sc.build)
 		if st.Diverged != "" {
 			vlib.Fatal("scenario %q: %s", sc.name, st.Diverged)
 		}
